@@ -54,6 +54,47 @@ Theorem C09_eager_lazy_partial : forall (B : backend) sc p q f ru rp written hos
 Proof. exact eager_agrees. Qed.
 Print Assumptions C09_eager_lazy_partial.
 
+(** Closed for the constructor: for every input string, the parts encode_url stores eagerly
+    are what a lazy split of its authority derives (hence, by C09_accessors_agree, the
+    unpickled/copied twin answers every accessor identically), provided the stored host is
+    non-empty and is either bracket-free without ':' '@' or a bracketed text without ']' '@'
+    (i.e. outside F7 and F17) and the user name did not canonicalise to "" (a user name
+    made only of lone surrogates).  The delimiter-freedom of the stored user and password
+    and the port range are proved, not assumed. *)
+From Yarl Require Import Spec.QuoteSpec Proofs.EagerLazyProofs.
+Theorem C09_constructor_eager_lazy : forall (O : oracles) (B : backend) s u m,
+  valid_str s -> encode_url O B s = Ok u -> u_eager u = Some m ->
+  (forall written,
+     u = eager_url B (u_scheme u) (u_path u) (u_query u) (u_fragment u)
+                   (m_user m) (m_password m) written (strip_brackets written) (m_port m) ->
+     host_form written (strip_brackets written) /\ strip_brackets written <> []) ->
+  m_user m <> Some [] ->
+  lazy_agrees u.
+Proof. exact encode_url_lazy_agrees. Qed.
+Print Assumptions C09_constructor_eager_lazy.
+
+Theorem C09_constructor_parts_clean : forall (O : oracles) (B : backend) s u m,
+  valid_str s -> encode_url O B s = Ok u -> u_eager u = Some m ->
+  exists written,
+    u = eager_url B (u_scheme u) (u_path u) (u_query u) (u_fragment u)
+                  (m_user m) (m_password m) written (strip_brackets written) (m_port m)
+    /\ (match m_port m with Some p => (p <= 65535)%N | None => True end)
+    /\ (match m_user m with Some x => mem 64 x = false /\ mem 58 x = false | None => True end)
+    /\ (match m_password m with Some x => mem 64 x = false | None => True end).
+Proof. exact encode_url_eager_facts. Qed.
+Print Assumptions C09_constructor_parts_clean.
+
+(** the host condition is met by every non-empty bracket-free host without ':' '@' '[' and by
+    every bracketed host whose inner text has no ']' '@' *)
+Theorem C09_host_condition_plain : forall h, h <> [] -> mem 64 h = false -> mem 58 h = false -> mem 91 h = false ->
+  host_form h (strip_brackets h) /\ strip_brackets h <> [].
+Proof. exact host_form_plain. Qed.
+Print Assumptions C09_host_condition_plain.
+Theorem C09_host_condition_bracketed : forall inner, inner <> [] -> mem 64 inner = false -> mem 93 inner = false ->
+  host_form ([91] ++ inner ++ [93]) (strip_brackets ([91] ++ inner ++ [93])) /\ strip_brackets ([91] ++ inner ++ [93]) <> [].
+Proof. exact host_form_bracketed. Qed.
+Print Assumptions C09_host_condition_bracketed.
+
 (** the core inversion: split_netloc undoes make_netloc *)
 Theorem C09_split_make_netloc : forall (q : str -> str) user password written hostname port,
   host_form written hostname ->
